@@ -797,6 +797,41 @@ func (f *Flow) refine(env Env, cond *Term, truth bool) (Env, bool) {
 				return env, false
 			}
 		}
+		// round-trip test: T(S(x)) == x holds exactly when x is representable in S
+		if op == token.EQL || op == token.NEQ {
+			for _, pr := range [][2]*Term{{cond.A, cond.B}, {cond.B, cond.A}} {
+				outer, x := pr[0], pr[1]
+				if outer.K != TConv || outer.A.K != TConv || outer.A.A.key != x.key || !types.Identical(outer.T, x.T) {
+					continue
+				}
+				// sound only when range(S) ⊂ range(T): S narrower, and not signed-into-unsigned
+				sb, ssig, ok1 := intTypeInfo(f.w, outer.A.T)
+				tb, tsig, ok2 := intTypeInfo(f.w, outer.T)
+				if !ok1 || !ok2 || sb >= tb || (ssig && !tsig) {
+					continue
+				}
+				rng, ok := typeRange(f.w, outer.A.T)
+				cur, _ := f.Eval(x, env)
+				if !ok || cur == nil {
+					continue
+				}
+				nw := cur.Intersect(rng)
+				if op == token.NEQ {
+					nw = cur.Minus(rng)
+				}
+				if nw.Empty() {
+					return env, false
+				}
+				out := env.clone()
+				f.assign(out, x, nw)
+				if truth {
+					out[cond.key] = single(1)
+				} else {
+					out[cond.key] = single(0)
+				}
+				return out, true
+			}
+		}
 		a, _ := f.Eval(cond.A, env)
 		b, _ := f.Eval(cond.B, env)
 		if a == nil || b == nil {
